@@ -44,9 +44,7 @@
 #include <functional>
 #include <memory>
 #include <chrono>
-#include <Eigen/Dense>
-#include <Eigen/Eigen>
-#include <Eigen/Sparse>
+#include <tapkee/defines/eigen3.hpp> // Eigen with tapkee's configuration macros; no tapkee code
 #include <fmt/core.h>
 #include <fmt/format.h>
 
